@@ -40,6 +40,31 @@ def setup(ctx):
                       + probes.install_substitution_capture(ctx, ctx._sink))
     ctx._reach = probes.Reach()
     ctx._reach.start()
+    declare_extending_visitors(ctx)
+
+
+def declare_extending_visitors(ctx):
+    """What an application that has its own error kinds declares once at import time: an `extend=True` formatter (and
+    validator) subclass that registers a public method for the new kind and keeps private helpers for its own
+    rendering.  The default formatter's messages for the built-in errors must go on naming the error path."""
+    from d42.validation import Formatter, Validator
+
+    class RvCompactFormatter(Formatter, extend=True):
+        def format_rv_custom_error(self, error):
+            return "rv custom error" + self._at_path(error.path)
+
+        def _at_path(self, path):          # private rendering helpers of the subclass itself
+            return ""
+
+        def _format_path(self, path):
+            return "<?>"
+
+    class RvValidator(Validator, extend=True):
+        def visit_rv_custom(self, schema, *, value=None, path=None, **kwargs):
+            return self.make_validation_result()
+
+    ctx.count("extending_visitor_subclasses_declared", 2)
+    ctx._extenders = (RvCompactFormatter, RvValidator)
 
 
 def teardown(ctx):
